@@ -36,6 +36,16 @@ def _maze(n: int, k: int):
 
 
 def check(case: dict):
+    if case.get("other"):
+        # two collections with different member layouts alive in one process, used one after the other and again
+        _check_one(case["other"])
+        r = _check_one(case)
+        _check_one(case["other"])
+        return r
+    return _check_one(case)
+
+
+def _check_one(case: dict):
     from maze_dataset import MazeDataset, MazeDatasetCollection, MazeDatasetCollectionConfig, MazeDatasetConfig
 
     lens, grids, route = case["lens"], case["grids"], case.get("route", "hand")
@@ -191,6 +201,16 @@ def _random(draw, maxm, maxlen):
             lens[j] = lens[j + 1] = 0
     grids = [draw(st.integers(2, 5)) for _ in range(n)]
     case = {"lens": lens, "grids": grids, "route": draw(st.sampled_from(["hand", "hand", "generate"]))}
+    if draw(st.integers(0, 3)) == 0:
+        # many members (more than any small-collection fast path would cover)
+        n = draw(st.sampled_from([17, 24, 33, 40]))
+        case["lens"] = [draw(st.sampled_from([0, 1, 1, 2, 3])) for _ in range(n)]
+        case["grids"] = [2 + (j % 3) for j in range(n)]
+        case["route"] = "hand"
+        return case
+    if draw(st.integers(0, 3)) == 0:
+        m2 = draw(st.integers(1, 5))
+        case["other"] = {"lens": [draw(st.integers(0, 3)) for _ in range(m2)], "grids": [2 + ((j + 1) % 3) for j in range(m2)], "route": "hand"}
     if case["route"] == "hand":
         if draw(st.booleans()):
             case["names"] = [draw(st.integers(0, max(0, n // 2))) for _ in range(n)]
